@@ -1006,10 +1006,25 @@ func (w *world) scripted(prop string, sc int, rng *mrand.Rand) {
 		o := w.randomTokOpts(rng, true)
 		o.blob = []int{0, 3000, 9000, 30000}[sc%4]
 		rt := []string{"", "rt-short", textWithCompressedLen(rng, 4400+4*(sc%50), alnum), strings.Repeat("R", 5000), textWithCompressedLen(rng, 2004, alnum)}[sc%5]
+		if sc%7 == 3 { // logging out of a session whose ID token has run out (with and without refresh token, within and past the skew window)
+			o.expIn = 10 * time.Minute
+		}
 		res := w.fullLogin("/start", o, rt, rng)
 		if res.ok {
 			for i := 0; i < rng.Intn(3); i++ {
 				w.plain("/x", reqSpec{}, rng)
+			}
+			if sc%7 == 3 {
+				if tok := w.loginTok[w.b]; tok != nil {
+					w.wait(time.Duration(tok.exp-time.Now().Unix()+[]int64{30, 200, 4000}[sc/7%3]) * time.Second)
+				}
+			}
+			if sc%7 == 5 { // a second logout, and a logout by a browser that never logged in (provider with end-session endpoint, no ID token)
+				w.logoutStep(reqSpec{})
+				w.logoutStep(reqSpec{note: "second logout"})
+				w.newBrowser()
+				w.logoutStep(reqSpec{note: "logout without ever having logged in"})
+				return
 			}
 			rs := w.randomReqSpec(rng, "C11")
 			rs.method = "GET"
